@@ -410,6 +410,27 @@ def snapshot(t, obj):
             'cer': enc(lambda: cer_encoder.encode(obj))}
 
 
+def contains_real(t):
+    b = gen.base_of(t)
+    if b[0] == 'real':
+        return True
+    if b[0] in ('seq', 'set', 'choice'):
+        return any(contains_real(f[2]) for f in b[1])
+    if b[0] in ('seqof', 'setof'):
+        return contains_real(b[1])
+    return False
+
+
+def default_mentions_real(t):
+    """T12 region: some DEFAULT member's type holds a REAL (compared with the value through float())"""
+    b = gen.base_of(t)
+    if b[0] in ('seq', 'set', 'choice'):
+        return any((f[0] == 'd' and contains_real(f[2])) or default_mentions_real(f[2]) for f in b[1])
+    if b[0] in ('seqof', 'setof'):
+        return default_mentions_real(b[1])
+    return False
+
+
 def readers_case(rep, r, t, v, label):
     """every read-only use, at every level of the value, leaves abstract content and encodings alone"""
     if gen.base_of(t)[0] not in ('seq', 'set', 'seqof', 'setof', 'choice'):
@@ -435,7 +456,7 @@ def readers_case(rep, r, t, v, label):
             pass
         except Exception as e:  # noqa
             sig = 'leak-%s-%s' % (type(e).__name__, name.split('-')[0])
-            if isinstance(e, OverflowError) and sigs.has_real_default(t):
+            if isinstance(e, OverflowError) and default_mentions_real(t):
                 sig = 'T12-real-default-through-float'
             rep.fail(sig, 'read-only use %s at %s raised %s: %s' % (name, list(path), type(e).__name__, e),
                      dict(replay, reader=name, path=list(path)))
